@@ -1128,6 +1128,7 @@ func c11QueuedAtDisconnect(ctx *core.Ctx, prop string, maxpend int) core.Result 
 		ctx.Beat()
 		dotu := round%2 == 0
 		kind := kinds[round%len(kinds)]
+		gbase := libGoroutines()
 		s := NewSess(Config{Dotu: dotu, Msize: 8192, Maxpend: maxpend})
 		v, b := s.Dial(), s.Dial()
 		ver := "9P2000"
@@ -1232,6 +1233,14 @@ func c11QueuedAtDisconnect(ctx *core.Ctx, prop string, maxpend int) core.Result 
 		res.Count("queued_requests_executed_after_disconnect", int64(late))
 		res.Sig(fmt.Sprintf("queued-at-disconnect|%v|%s|mp=%d|late=%d", dotu, kind, maxpend, late))
 		b.Hangup()
+		// every goroutine that served the two connections ends now that nothing is executing any more
+		if prop == "C11" {
+			if isLeak, dump, stable := leaked(gbase, 4*time.Second); isLeak && stable {
+				res.Violate("C11;queued-at-disconnect;goroutine-leak;"+kind+";"+firstLibFrame(dump), fmt.Sprintf("a %s was waiting behind an executing request of its tag at the disconnect; after everything was released and both connections were closed, goroutines of the library are still there", kind), dump)
+			} else if isLeak {
+				res.Inconclusive = "c11 queued: goroutines not settled"
+			}
+		}
 	}
 	res.Sample(map[string]interface{}{"scenario": "a request waits behind an executing one of its tag at the disconnect", "maxpend": maxpend})
 	return res
